@@ -213,11 +213,14 @@ class FixedArray(Array, Generic[ValuesType]):
         """
         from barril.units import Scalar
 
+        # Note: plain values are amounts of this array's own quantity (so, the category is kept).
         if isinstance(value, tuple):
-            scalar = Scalar(self.GetValues()[index], self.GetUnit()).CreateCopy(*value)
+            scalar = Scalar.CreateWithQuantity(
+                self.GetQuantity(), self.GetValues()[index]
+            ).CreateCopy(*value)
 
         elif not isinstance(value, Scalar):
-            scalar = Scalar(value, self.GetUnit())
+            scalar = Scalar.CreateWithQuantity(self.GetQuantity(), value)
 
         else:
             scalar = value
